@@ -22,7 +22,9 @@ func randomCfg(rng *rand.Rand, clean bool) cfg {
 	return c
 }
 
-const maxConcurrentJobs = 2 // <= smallest MaxSnaps used, so that no snapshot DB created by a batch of jobs is rotated out inside the batch
+// at most 2 jobs at a time (<= smallest MaxSnaps used, so that no snapshot DB created by a batch of jobs is rotated
+// out inside the batch); most traces run one job at a time, which is what C10 quantifies over
+const maxConcurrentJobs = 2
 
 func (d *driver) activeJobs() int {
 	n := 0
@@ -45,7 +47,7 @@ func (d *driver) enabled(o op) bool {
 		if !d.canFinalize() {
 			return false
 		}
-		if d.s.c.CpMod != 0 && d.chain[d.nfin].nonce%uint64(d.s.c.CpMod) == 0 && d.activeJobs() >= maxConcurrentJobs {
+		if d.s.c.CpMod != 0 && d.chain[d.nfin].nonce%uint64(d.s.c.CpMod) == 0 && d.activeJobs() >= d.maxJobs {
 			return false
 		}
 		return true
@@ -59,7 +61,7 @@ func (d *driver) enabled(o op) bool {
 	case "exit":
 		return d.manual > 0
 	case "snap", "cp":
-		return d.activeJobs() < maxConcurrentJobs
+		return d.activeJobs() < d.maxJobs
 	case "step", "lstep":
 		return len(d.s.g.parked()) > 0
 	}
@@ -75,6 +77,7 @@ func record(seed int64, traces, n int, out, mode string) {
 	}
 	rng := rand.New(rand.NewSource(seed))
 	steps, njobs, nclean := 0, 0, 0
+	var aborted []string
 	kinds := vtrace.NewDistinct()
 	for t := 0; t < traces; t++ {
 		clean := rng.Intn(2) == 0
@@ -90,6 +93,9 @@ func record(seed int64, traces, n int, out, mode string) {
 			return
 		}
 		d.clean = clean
+		if rng.Intn(10) < 3 {
+			d.maxJobs = maxConcurrentJobs
+		}
 		if clean {
 			nclean++
 		}
@@ -98,19 +104,31 @@ func record(seed int64, traces, n int, out, mode string) {
 			vtrace.Broken("genesis: " + err.Error())
 			return
 		}
+		failed := ""
 		for i := 0; i < n; i++ {
 			o := pick(d, rng, withJobs)
 			if err := d.doPicked(o, rng); err != nil {
-				vtrace.Broken(fmt.Sprintf("trace %d step %d %+v: %v", t, i, o, err))
-				return
+				failed = fmt.Sprintf("trace %d step %d %+v: %v", t+1, i, o, err)
+				break
 			}
 			kinds.Add(fmt.Sprintf("%s blk=%v jobs=%d buf=%d q=%d", o.Op, d.s.tsm.IsPruningBlocked(), d.activeJobs(), c.BufLen, c.Queue))
 			steps++
 		}
 		njobs += len(d.jobs)
-		if err := d.finish(); err != nil {
-			vtrace.Broken(err.Error())
-			return
+		if failed == "" {
+			if err := d.finish(); err != nil {
+				failed = fmt.Sprintf("trace %d end: %v", t+1, err)
+			}
+		}
+		if failed != "" {
+			// An operation of the real stack failed (e.g. a node of the current state can not be read any more).
+			// The states observed so far are kept: if a property was broken the trace shows it; the check
+			// reports itself broken only if the validated trace does not explain the failure.
+			aborted = append(aborted, failed)
+			d.abort()
+			if len(aborted) >= 3 {
+				break
+			}
 		}
 	}
 	if err := w.Close(); err != nil {
@@ -118,6 +136,7 @@ func record(seed int64, traces, n int, out, mode string) {
 	}
 	vtrace.Stat("events", w.N)
 	vtrace.Stat("traces", traces)
+	vtrace.Stat("aborted", aborted)
 	vtrace.Stat("steps", steps)
 	vtrace.Stat("jobs", njobs)
 	vtrace.Stat("clean_traces", nclean)
